@@ -95,6 +95,7 @@ def scan_cases(run, rng, cases, defer=0):
             else:
                 run.violation(info, tag="scan")
             continue
+        got_dtype = np.asarray(got).dtype
         if np.asarray(got).dtype.kind in "Mm":          # datetimes / timedeltas are compared through their int64 representation
             got = np.asarray(got).view("int64")
         vf = v.view("int64").astype(float) if v.dtype.kind in "Mm" else v.astype(float)
@@ -103,7 +104,8 @@ def scan_cases(run, rng, cases, defer=0):
         else:
             want = oracle(func, vf, lab) if func == "nancumsum" else vf
         valid_pos = ~np.isnan(lab.astype(float))       # positions with a missing label: unspecified
-        ok = got.shape == v.shape and np.allclose(np.asarray(got, dtype=float)[valid_pos], want[valid_pos], equal_nan=True)
+        tol = dict(rtol=1e-12, atol=1e-12) if dtype != "float32" else dict(rtol=1e-5, atol=1e-6)     # float64 / integer data: no digit may be lost
+        ok = got.shape == v.shape and np.allclose(np.asarray(got, dtype=float)[valid_pos], want[valid_pos], equal_nan=True, **tol)
         if not ok:
             info = {"property": "C10", "kind": "grouped scan differs from the per-group sequential NumPy scan", "func": func,
                     "vals": vals, "labels": labels, "chunks": chunks, "dtype": dtype,
@@ -125,15 +127,22 @@ def scan_cases(run, rng, cases, defer=0):
                 with warnings.catch_warnings():
                     warnings.simplefilter("ignore")
                     eager = np.asarray(flox.groupby_scan(v, lab, func=func))
+                    eager_dtype = eager.dtype
                     eager = eager.view("int64").astype(float) if eager.dtype.kind in "Mm" else eager.astype(float)
             except Exception:  # noqa: BLE001
                 eager = None
-            if eager is not None and not np.allclose(np.asarray(got, dtype=float), eager, equal_nan=True):
+            if eager is not None and got_dtype != eager_dtype and got_dtype.kind not in "Mm":
+                run.violation({"property": "C10", "kind": "chunked grouped scan has another dtype than the in-memory scan of the same data",
+                               "func": func, "vals": vals, "labels": labels, "chunks": chunks, "dtype": dtype,
+                               "chunked_dtype": str(got_dtype), "in_memory_dtype": str(eager_dtype),
+                               **({"window": [dict(zip(("func", "vals", "labels", "chunks", "dtype"), c)) for c in cases[ci - ci % defer:ci - ci % defer + defer]]} if defer else {})}, tag="scan")
+                continue
+            if eager is not None and not np.allclose(np.asarray(got, dtype=float), eager, equal_nan=True, **tol):
                 run.violation({"property": "C10", "kind": "chunked grouped scan differs from the in-memory scan of the same data",
                                "func": func, "vals": vals, "labels": labels, "chunks": chunks, "dtype": dtype,
                                "chunked": [I.fnum(x) for x in np.asarray(got, dtype=float)], "in_memory": [I.fnum(x) for x in eager]}, tag="scan")
                 continue
-        if dtype == "float64" and "nan" not in labels and not F.classify_nd("C10", {"func": func, "labels": labels, "vals": vals, "chunks": chunks, "probe": True}):
+        if dtype == "float64" and "nan" not in labels and all(x == "nan" or float(x).is_integer() for x in vals) and not F.classify_nd("C10", {"func": func, "labels": labels, "vals": vals, "chunks": chunks, "probe": True}):
             present = sorted(set(labels))
             codes = [present.index(x) for x in labels]
             coq.append(f"({FCODE[func]}, {C.list_lit([str(s) + '%nat' for s in (chunks or [])])}, {C.list_lit([C.zlit(c) for c in codes])}, "
@@ -201,6 +210,20 @@ def run(run: C.Run):
     # the same kind of cases, mixed dtypes, every lazy result of a window built before any of them is computed
     dcases = [c for c in gen(rng, 1500 if thorough else 300, 0) if c[3] is not None]
     rng.shuffle(dcases)
+    # neighbours in a window: the same scan on data of alternating dtype kinds (what a shared, specialised blueprint would confuse)
+    arranged = []
+    for f in sorted({c[0] for c in dcases}):
+        fl = [c for c in dcases if c[0] == f and c[4].startswith("float")]
+        ot = [c for c in dcases if c[0] == f and not c[4].startswith("float")]
+        while fl or ot:
+            if fl:
+                arranged.append(fl.pop())
+            if ot:
+                arranged.append(ot.pop())
+    # float data with many significant digits (not representable as integers or in float32): a carried state that passes
+    # through another scan's dtype loses digits visibly
+    dcases = [(f, [x if x == "nan" else x + rng.choice([0.123456789, 0.37, -0.000123, 1 / 3]) for x in vals] if dt == "float64" else vals, lab, ch, dt)
+              for f, vals, lab, ch, dt in arranged]
     coq += scan_cases(run, rng, dcases, defer=6)
     run.extra["deferred_scan_cases (6 lazy scans built before the first is computed)"] = len(dcases)
     eval_simple(run, "scan", "scan_case_ok", coq, "correspondence:K3 Scan.scan_seq / scan_chunked == flox.groupby_scan")
